@@ -18,7 +18,8 @@ TIERS = {"C07": (3000, 150, 80000, 1200), "C08": (1200, 160, 30000, 1200)}
 PROBES = {
     "C07": ["strategy_update", "asymmetric_metric", "order_sensitive_scorer", "with_X",
             "return_data", "clock_backwards_seen", "initial_window", "gapped_fh",
-            "no_leak_checked", "honest_recomputation_checked"],
+            "no_leak_checked", "honest_recomputation_checked", "prefitted_forecaster",
+            "x_consuming_forecaster"],
     "C08": ["tie_in_best_score", "greater_is_better", "nested_param_names", "multiplexer_grid",
             "randomized_search", "refit_false", "interleave_schedule", "pre_dispatch_window",
             "lockstep_history_checked", "sibling_schedule_checked"],
@@ -118,8 +119,11 @@ def generate(prop, rng, tier):
         if spec["kind"] == "reduce" and spec["strategy"] != "recursive":
             spec = dict(spec, strategy="recursive", regressor="stub")  # fh is per fold
         with_X = rng.random() < 0.25 and spec["kind"] in ("naive", "reduce")
+        if rng.random() < 0.12:
+            spec = {"kind": "xinc"}   # a peer that uses exogenous data at predict time
+            with_X = True
         cv = _gen_cv(rng, n)
-        need = C.min_train_len(spec, max(cv["fh"]))
+        need = C.min_train_len(spec, max(cv["fh"])) if spec["kind"] != "xinc" else 3
         cv["window"] = max(cv["window"], need)
         strategy = rng.choice(["refit", "refit", "update"])
         if strategy == "update":
@@ -135,6 +139,7 @@ def generate(prop, rng, tier):
             "metric": rng.choice([None, "smape", "mape", "mse", "rmse", "asym", "rel_true",
                                   "neg_mae", "skill"]),
             "with_X": with_X, "return_data": rng.random() < 0.4,
+            "prefit": rng.random() < 0.25,
             "clock": {"seed": rng.randint(0, 10 ** 6), "jump_every": rng.choice([0, 0, 3, 5]),
                       "jump_hours": rng.choice([-5, -1, 2, 100])},
         }
@@ -220,15 +225,28 @@ def execute_c07(scen):
     s = scen["series"]
     y = C.make_series(s["seed"], scen["n"], s["origin"], s["index"], sp=s["sp"])
     X = _make_X(y, s["seed"] + 1) if scen["with_X"] else None
-    inner = C.build(scen["spec"])
+    inner = peers.XIncrementForecaster() if scen["spec"]["kind"] == "xinc" else C.build(scen["spec"])
     spy = peers.SpyForecaster(inner, tag="F")
+    if scen.get("prefit"):
+        # the caller's forecaster object has a past: it was already fitted on older data
+        try:
+            with peers.paused():
+                old = C.make_series(s["seed"] + 3, 12, s["origin"] - 40, s["index"], sp=s["sp"])
+                oldX = _make_X(old, s["seed"] + 4) if scen["with_X"] else None
+                spy.fit(old, oldX, fh=[1])
+            res.probe("prefitted_forecaster")
+        except Exception:
+            spy = peers.SpyForecaster(inner, tag="F")
     cv = C.build_cv(scen["cv"])
     metric = build_metric(scen["metric"])
-    res.real.update(C.class_names(scen["spec"]))
+    res.real.update(C.class_names(scen["spec"]) if scen["spec"]["kind"] != "xinc" else set())
+    if scen["spec"]["kind"] == "xinc":
+        res.stub.add("XIncrementForecaster (peer that consumes X at predict time)")
+        res.probe("x_consuming_forecaster")
     res.real.update(["forecasting.model_evaluation.evaluate",
                      "forecasting.model_selection.%s" % type(cv).__name__])
     res.stub.update(["SpyForecaster(wrapping the real forecaster)", "SimClock(time.time)"])
-    if C.uses_stub(scen["spec"]):
+    if scen["spec"]["kind"] != "xinc" and C.uses_stub(scen["spec"]):
         res.stub.add("StubRegressor")
     clock = SimClock(scen["clock"]["seed"], scen["clock"]["jump_every"], scen["clock"]["jump_hours"])
     digest = hashlib.sha256()
@@ -637,6 +655,8 @@ def shrink_candidates(prop, scen):
             yield dict(s, clock=dict(s["clock"], jump_every=0))
         if s["spec"]["kind"] != "naive":
             yield dict(s, spec={"kind": "naive", "strategy": "last", "sp": 1, "window_length": None})
+        if s.get("prefit"):
+            yield dict(s, prefit=False)
         if s["series"]["origin"]:
             yield dict(s, series=dict(s["series"], origin=0))
         if s["cv"].get("initial"):
